@@ -16,6 +16,8 @@ def tasks(tier, seed):
         ts += [{"kind": "exh_re", "ops": o, "part": i, "parts": 2} for o in (0, 1, 2) for i in range(2)]
         ts += [{"kind": "rnd_re", "count": 400, "seed": seed * 10 + i} for i in range(2)]
         ts += [{"kind": "rel_re", "count": 100, "seed": seed * 10 + i} for i in range(2)]
+        ts += [{"kind": "ctx_re", "which": "star_nullable", "part": i, "parts": 2} for i in range(2)]
+        ts += [{"kind": "ctx_re", "which": "rest", "part": i, "parts": 2, "stride": 37} for i in range(2)]
         ts += [dict(t, what="d2r") for t in gen.dfa_src_tasks(3, "ab", 8, stride=3, pools=(0, 1, 2, 3))]
         ts += [dict(t, what="d2r") for t in gen.dfa_src_tasks(2, "abc", 2, stride=7, pools=(0, 2))]
         ts += [{"kind": "rnd_dfa", "count": 250, "seed": seed * 10 + i, "what": "d2r", "maxk": 4,
@@ -27,6 +29,8 @@ def tasks(tier, seed):
         ts += [{"kind": "exh_re", "ops": 3, "part": i, "parts": 16} for i in range(16)]
         ts += [{"kind": "rnd_re", "count": 2000, "seed": seed * 10 + i} for i in range(16)]
         ts += [{"kind": "rel_re", "count": 400, "seed": seed * 10 + i} for i in range(8)]
+        ts += [{"kind": "ctx_re", "which": "star_nullable", "part": i, "parts": 4} for i in range(4)]
+        ts += [{"kind": "ctx_re", "which": "rest", "part": i, "parts": 16, "stride": 2} for i in range(16)]
         ts += [dict(t, what="d2r") for t in gen.dfa_src_tasks(3, "ab", 16, pools=(0, 1, 2, 3))]
         ts += [dict(t, what="d2r") for t in gen.dfa_src_tasks(2, "abc", 8, pools=(0, 2))]
         ts += [dict(t, what="d2r") for t in gen.dfa_src_tasks(4, "ab", 32, stride=331, pools=(0, 1, 2, 3))]
@@ -188,6 +192,10 @@ def drive(task):
         for i, r in enumerate(U.all_regexps(task["ops"], c05.LEAVES)):
             if i % task["parts"] == task["part"]:
                 yield from re_events(r, {"kind": "re"})
+    elif task["kind"] == "ctx_re":
+        for i, r in enumerate(U.context_regexps(task["which"])):
+            if i % task["parts"] == task["part"] and (i // task["parts"]) % task.get("stride", 1) == 0:
+                yield from re_events(r, {"kind": "re"})
     elif task["kind"] == "rel_re":
         rng = random.Random(task["seed"])
         for i in range(task["count"]):
@@ -226,7 +234,9 @@ MODELS = {"quick": [("GnfaRip", "GnfaRip_q.cfg", "all DFA(2,{a,b}) x all elimina
           "thorough": [("GnfaRip", "GnfaRip_q.cfg", "all DFA(2,{a,b}) x all elimination orders"),
                        ("Thompson", "ThompsonM_t.cfg", "regexp_to_nfa model on all trees with <= 3 operators", _TH),
                        ("GnfaRip", "GnfaRip_t.cfg", "all DFA(3,{a}) x all 6 elimination orders"), ("GnfaRip", "GnfaRip_t2.cfg", "all DFA(3,{a,b}) x all 6 elimination orders")]}
-RULE = ("regexp->NFA on all trees with <= 2 (3) operators over {0,1,a,b} and random trees up to 8 operators (alphabets "
+RULE = ("regexp->NFA on all trees with <= 2 (3) operators over {0,1,a,b}, CONTEXT[CORE] trees of depth <= 4 (every core with "
+        "1-2 operators in every one-hole context with 1-2 operators over {1,a,b}: all of them for cores that are a star over "
+        "a nullable expression, every 37th (2nd) otherwise) and random trees up to 8 operators (alphabets "
         "incl. {0,1}); DFA->regexp on DFA(3,{a,b}) (strided in quick), DFA(2,{a,b,c}), random DFAs up to 5 states, under "
         "four state-naming schemes and several hash seeds (= elimination orders); equivalence decided exactly; for DFAs "
         "with <= 3 states the labels after dfa_to_gnfa, every ripped state (hook) and the final label are validated "
